@@ -4,13 +4,64 @@ import (
 	"fmt"
 	"time"
 
+	"cosmossdk.io/math"
+
 	ophosttypes "github.com/initia-labs/OPinit/x/ophost/types"
 
 	"verifharness/mon"
+	"verifharness/ref"
 	"verifharness/sim"
 )
 
 func init() { register("C01", "exploration", checkC01) }
+
+// c01ManyBridges: per-bridge isolation over many bridge ids (the random histories keep to a handful): 70 bridges, a
+// deposit into each, a withdrawal from some; after every step every escrow — found at its independently derived
+// address — holds exactly what was deposited into that bridge and not yet withdrawn.
+func c01ManyBridges(run *mon.Run, rng *mon.Rand) {
+	run.Declare("C01.isolation_over_many_bridges", 50)
+	const N = 70
+	var periods []time.Duration
+	for i := 0; i < N; i++ {
+		periods = append(periods, 5*time.Second)
+	}
+	env := newL1Env(N, periods)
+	want := map[uint64]int64{}
+	check := func(step string) bool {
+		for id := uint64(1); id <= N; id++ {
+			got := env.L1.BK.GetBalance(env.L1.Ctx, refBridgeAddr(id), "uinit").Amount
+			if !run.Check("C01.isolation_over_many_bridges", got.Equal(math.NewInt(want[id])), "c01.many_bridges_escrow", []string{step}, "%s: escrow of bridge %d holds %s uinit, deposits minus withdrawals of that bridge are %d", step, id, got, want[id]) {
+				return false
+			}
+		}
+		return true
+	}
+	for id := uint64(1); id <= N; id++ {
+		amt := int64(1000 + id)
+		if r := env.Deposit(env.Users[int(id)%len(env.Users)], id, "l2", "uinit", math.NewInt(amt), nil); r.Class != sim.OK {
+			run.Fail("C01.isolation_over_many_bridges", "c01.many_bridges_deposit_failed", nil, "deposit into bridge %d failed: %s", id, r.ErrString())
+			return
+		}
+		want[id] += amt
+		run.Evaluations++
+		if !check(fmt.Sprintf("after the deposit of %d into bridge %d", amt, id)) {
+			return
+		}
+	}
+	user := env.Users[1]
+	for _, id := range []uint64{33, 1, 65, 64, 70} {
+		o := env.ProposeTree(id, []Withdrawal{{id, 1, "l2a", user.String(), "uinit", 500}}, ref.PadLast, rng)
+		env.L1.NextBlock(6 * time.Second)
+		if r := env.L1.Deliver(o.Claim(0, user.String())); r.Class == sim.OK {
+			want[id] -= 500
+		}
+		run.Evaluations++
+		if !check(fmt.Sprintf("after a withdrawal of 500 from bridge %d", id)) {
+			return
+		}
+	}
+	run.Distinct("many-bridges")
+}
 
 func checkC01(run *mon.Run, rng *mon.Rand, thorough bool) {
 	run.Rule = "seeded random multi-bridge L1 histories (all 12 ophost message types + bank sends, valid and invalid); monitors run after every step. A history is non-trivial if >=2 bridges held funds in the same denom, >=1 withdrawal was paid and >=1 cross-bridge or forged claim was rejected; distinct by final ophost state digest"
@@ -18,6 +69,7 @@ func checkC01(run *mon.Run, rng *mon.Rand, thorough bool) {
 	for _, c := range []string{"C01.conservation", "C01.balance_deltas_exact", "C01.supply_unchanged", "C01.other_bridges_untouched", "C01.raw_keys_attributed", "C03.accepted_claim_is_committed"} {
 		run.Declare(c, 50)
 	}
+	c01ManyBridges(run, rng.Split())
 	hist := pick(thorough, 24, 400)
 	steps := pick(thorough, 250, 500)
 	kinds := map[string]int{}
